@@ -562,8 +562,9 @@ func (s *Stream) cleanup() {
 	s.mu.Lock()
 	defer s.mu.Unlock()
 	s.closed = true
-	s.msgAssembler = nil // Release the buffer
-	close(s.sendQueue)   // Close send channel
+	// the receive buffer is left to the receive service (which may be between two packets of a message and still handles the
+	// packet it has read: clearing the buffer under it would deliver the rest of that message as a message of its own)
+	close(s.sendQueue) // Close send channel
 }
 
 // IsSelf() returns if the peer address public key equals the self public key
